@@ -79,7 +79,7 @@ def mk_owner(kind, mode, raising):
     """kind: any | int | event | expression"""
     logs = {"static": [], "otc": [], "observe": [], "other": []}
     md = {"comparison_mode": mode}
-    if kind == "any":
+    if kind in ("any", "any-magic"):
         tr = Any(**md)
     elif kind == "int":
         tr = Int(**md)
@@ -90,16 +90,31 @@ def mk_owner(kind, mode, raising):
     else:
         tr = Expression(**md)
 
-    class Owner(HasTraits):
-        x = tr
+    if kind == "any-magic":
+        # an @observe-decorated method that happens to carry a magic name, inherited by the class in use: it is an observe
+        # handler (one TraitChangeEvent per change), not ALSO a static handler
+        _missing = object()
 
-        def _x_changed(self, old, new):
-            logs["static"].append((old, new))
-            if raising == "static":
-                raise RuntimeError("handler failed")
+        class Base(HasTraits):
+            x = tr
 
-        def _x_fired(self, old, new):
+            @observe("x")
+            def _x_changed(self, event):
+                logs["static"].append((getattr(event, "old", _missing), getattr(event, "new", event)))
+
+        class Owner(Base):
             pass
+    else:
+        class Owner(HasTraits):
+            x = tr
+
+            def _x_changed(self, old, new):
+                logs["static"].append((old, new))
+                if raising == "static":
+                    raise RuntimeError("handler failed")
+
+            def _x_fired(self, old, new):
+                pass
 
     o = Owner()
 
@@ -190,13 +205,16 @@ def make_harness(tkind, mode, kinds, raising, first_read, default_eh=False):
     def harness(ex):
         import logging
         from traits.observation import exception_handling as _eh
-        push_exception_handler(lambda *a: None, reraise_exceptions=False)
+        legacy_default = default_eh == "legacy"          # the library's own NotificationExceptionHandler logs the failure
+        observe_default = default_eh and not legacy_default
+        if not legacy_default:
+            push_exception_handler(lambda *a: None, reraise_exceptions=False)
         logger = logging.getLogger("traits")
         null = logging.NullHandler()
         if default_eh:
             logger.addHandler(null)
             old_prop, logger.propagate = logger.propagate, False
-        else:
+        if not observe_default:
             _eh.push_exception_handler(handler=lambda e: None, reraise_exceptions=False)
         try:
             return body(ex)
@@ -204,9 +222,10 @@ def make_harness(tkind, mode, kinds, raising, first_read, default_eh=False):
             if default_eh:
                 logger.removeHandler(null)
                 logger.propagate = old_prop
-            else:
+            if not observe_default:
                 _eh.pop_exception_handler()
-            pop_exception_handler()
+            if not legacy_default:
+                pop_exception_handler()
 
     def body(ex):
         o, logs = mk_owner(tkind, mode, raising)
@@ -290,6 +309,78 @@ def make_harness(tkind, mode, kinds, raising, first_read, default_eh=False):
     return harness
 
 
+def deferred_harness(k):
+    """deferring traits (DelegatesTo / PrototypedFrom): handlers of the deferring attribute fire exactly once per change of its
+    READABLE value and never otherwise, with truthful old / new - also when the handlers are attached late, after local
+    assignments or deletions made while nobody was listening"""
+    from traits.api import Instance, DelegatesTo, PrototypedFrom
+
+    def harness(ex):
+        push_exception_handler(lambda *a: None, reraise_exceptions=False)
+        try:
+            proto = ex.flag("prototyped")
+
+            class Src(HasTraits):
+                x = Int(0)
+
+            class Dst(HasTraits):
+                src = Instance(Src, ())
+                x = (PrototypedFrom if proto else DelegatesTo)("src")
+
+            d = Dst()
+            log = []
+
+            def otc(obj, name, old, new):
+                log.append(("otc", old, new))
+
+            def obs(event):
+                log.append(("obs", event.old, event.new))
+
+            attached = False
+            attach_at = ex.choice("handlers_attached_before_step", k + 1)
+            local = False
+            val = 10
+            for step in range(k + 1):
+                if step == attach_at:
+                    d.on_trait_change(otc, "x")
+                    d.observe(obs, "x")
+                    attached = True
+                if step == k:
+                    break
+                op = ex.choice("op%d" % step, 4)
+                val += 1
+                before = d.x
+                del log[:]
+                if op == 0:
+                    d.x = val                       # via the deferring attribute
+                    if proto:
+                        local = True
+                elif op == 1:
+                    d.src.x = val                   # on the delegate / prototype
+                elif op == 2:
+                    if not (proto and local):
+                        continue
+                    del d.x                         # the local value goes: the link is back
+                    local = False
+                else:
+                    if not attached:
+                        continue
+                    d.on_trait_change(otc, "x", remove=True)      # detach and re-attach: state kept while nobody listens
+                    d.observe(obs, "x", remove=True)
+                    d.on_trait_change(otc, "x")
+                    d.observe(obs, "x")
+                after = d.x
+                if attached:
+                    want = [("obs", before, after), ("otc", before, after)] if after != before else []
+                    ex.check(sorted(log, key=repr) == sorted(want, key=repr),
+                             "handlers of a deferring attribute fire exactly once per change of its readable value and never "
+                             "otherwise, with truthful old and new (whenever they were attached)")
+            return {"proto": proto}
+        finally:
+            pop_exception_handler()
+    return harness
+
+
 def obligations(tier, build):
     cenv.load_program(build)
     obs = []
@@ -336,6 +427,19 @@ def obligations(tier, build):
                                   bounds={"history": list(seq), "comparison mode": mode.name,
                                           "quiet update": "trait_setq / trait_set(trait_change_notify=False), natively"},
                                   leverage="equality of payloads", max_paths=2000))
+        for seq in [("int", "int"), ("int", "same"), ("none", "int")]:
+            obs.append(Obligation("any-magic/%s/%s" % (mode.name, "-".join(seq)), make_harness("any-magic", mode, seq, None, False), stubs=STUBS,
+                                  bounds={"history": list(seq), "comparison mode": mode.name,
+                                          "owner": "subclass inheriting an @observe-decorated method named _x_changed"},
+                                  leverage="equality of payloads", max_paths=2000))
+        # a failing legacy handler reported by the library's default notification exception handler, unprintable values
+        for raising_ in ("otc", "static"):
+            for seq in [("int", "reprraises"), ("reprraises", "int")]:
+                obs.append(Obligation("any/%s/%s/raise=%s/default-legacy-exception-handler" % (mode.name, "-".join(seq), raising_),
+                                      make_harness("any", mode, seq, raising_, False, default_eh="legacy"), stubs=STUBS,
+                                      bounds={"history": list(seq), "comparison mode": mode.name, "raising handler": raising_,
+                                              "exception handler": "the library's default NotificationExceptionHandler (logging)"},
+                                      leverage="choice feasibility only", max_paths=2000))
         # a failing observe handler reported by observe's default exception handler, with values that cannot be printed
         for seq in [("int", "reprraises"), ("reprraises", "int"), ("reprraises", "reprraises")]:
             obs.append(Obligation("any/%s/%s/raise=observe/default-exception-handler" % (mode.name, "-".join(seq)),
@@ -343,6 +447,12 @@ def obligations(tier, build):
                                   bounds={"history": list(seq), "comparison mode": mode.name, "raising handler": "observe",
                                           "exception handler": "observe's default (logging)"},
                                   leverage="choice feasibility only", max_paths=2000))
+    KD = 3 if tier == "quick" else 4
+    obs.append(Obligation("deferred/k=%d" % KD, deferred_harness(KD), stubs=[],
+                          bounds={"history length": KD, "operations": ["assign via the deferring attribute", "assign on the delegate",
+                                                                        "delete the local value", "detach and re-attach the handlers"],
+                                  "handlers attached before step": "0..k (symbolic choice)"},
+                          leverage="choice feasibility only (compiled code runs concretely)", max_paths=20000))
     for raising in (None, "otc"):
         for seq in [("int", "same"), ("int", "int"), ("none", "none"), ("float", "same")]:
             obs.append(Obligation("event/%s/raise=%s" % ("-".join(seq), raising),
